@@ -39,7 +39,8 @@ def check_rolling(x, w, nd, out, what="rolling_sum"):
     """Vectorised set-valued oracle. Returns index (row, pos) of the first bad cell or None."""
     sv, cnt = model_rolling(x.astype(np.float64), w, nd)
     o = out[:, w - 1:].astype(np.float64)
-    ok = np.where(cnt == w, o == sv, np.where(cnt == 0, o == nd, (o == nd) | (o == sv)))
+    nd_out = float(np.float32(nd))  # nodata is echoed in the float32 output (2147483647 comes back as 2147483648.0)
+    ok = np.where(cnt == w, o == sv, np.where(cnt == 0, o == nd_out, (o == nd_out) | (o == sv)))
     if ok.all():
         return None
     r, c = np.argwhere(~ok)[0]
@@ -105,7 +106,7 @@ def sub_rolling_accessor(case):
     req(np.array_equal(res["time"].values, da["time"].values[w - 1:]), "rolling.sum time coordinate is not the last nt-w+1 steps", "rolling trimming")
     req(res.dtype == np.float32, "rolling.sum dtype %s" % res.dtype, "rolling dtype")
     out = res.transpose("y", "x", "time").values.reshape(npx, nt - w + 1)
-    full = np.concatenate([np.full((npx, w - 1), nd, dtype=np.float32), out], axis=1)
+    full = np.concatenate([np.full((npx, w - 1), np.float32(nd), dtype=np.float32), out], axis=1)
     bad = check_rolling(arr, w, nd, full)
     if bad is not None:
         r, c = bad
@@ -120,11 +121,15 @@ def sub_mean_grp_accessor(case):
     g = np.array(case["groups"], dtype="int16")
     da = xr.DataArray(arr.reshape(npx, 1, nt), dims=("y", "x", "time"), coords={"time": pd.date_range("2000-01-01", periods=nt, freq="D")})
     da = da.transpose(*case["dims"])
+    garg = g.astype(case["as_array"]) if case.get("as_array") else g.tolist()
     if case["nodata_from"] == "attrs":
         da.attrs["nodata"] = nd
-        res = call("mean_grp", lambda: da.hdc.algo.mean_grp(g if case.get("as_array") else g.tolist()))
+        res = call("mean_grp", lambda: da.hdc.algo.mean_grp(garg))
+    elif case["nodata_from"] == "both":
+        da.attrs["nodata"] = nd + 5  # the argument wins over the attribute
+        res = call("mean_grp", lambda: da.hdc.algo.mean_grp(garg, nodata=nd))
     else:
-        res = call("mean_grp", lambda: da.hdc.algo.mean_grp(g if case.get("as_array") else g.tolist(), nodata=nd))
+        res = call("mean_grp", lambda: da.hdc.algo.mean_grp(garg, nodata=nd))
     req(res.dims[-1] == "time" and res.sizes["time"] == nt, "mean_grp dims %s" % (res.dims,), "mean_grp dims")
     out = res.transpose("y", "x", "time").values.reshape(npx, nt)
     k = int(g.max()) + 1
@@ -294,15 +299,17 @@ def run(ctx):
         nt = draw(st.integers(1, 30))
         npx = draw(st.integers(1, 3))
         nd = draw(st.sampled_from([-9999, 0, 255]))
+        if dtype == "int64" and draw(st.booleans()):
+            nd = draw(st.sampled_from([2147483647, 16777217, -2147483647, 2 ** 40 + 1]))  # not representable in float32
         vmax = min(DT_BOUNDS[dtype], (2 ** 24 - 1) // nt)
         px = [[nd if draw(st.integers(0, 9)) < 3 else draw(st.integers(-vmax, vmax)) for _ in range(nt)] for _ in range(npx)]
         case = {"pixels": px, "dtype": dtype, "nodata": nd, "dims": list(draw(st.permutations(["time", "y", "x"]))),
-                "nodata_from": draw(st.sampled_from(["attrs", "arg", "both"] if not grouped else ["attrs", "arg"]))}
+                "nodata_from": draw(st.sampled_from(["attrs", "arg", "both"]))}
         if grouped:
             k = draw(st.integers(1, min(nt, 6)))
             base = list(range(k)) + [draw(st.integers(0, k - 1)) for _ in range(nt - k)]
             case["groups"] = list(draw(st.permutations(base)))
-            case["as_array"] = draw(st.booleans())
+            case["as_array"] = draw(st.sampled_from([None, "int16", "int8", "uint8"]))  # ids must cast safely to the kernel's int16
         else:
             case["window"] = draw(st.integers(1, nt))
         return case
@@ -318,3 +325,15 @@ def run(ctx):
         sub_mean_grp_accessor(case)
 
     ctx.given("mean_grp_accessor", acc_case(True), ctx.n(200, 3000), fn=f_ga)
+
+    @st.composite
+    def many_groups(draw):
+        # as many groups as the id dtype can just hold (int8: 128 ids, uint8: 256 ids), every time step its own group or pairs
+        idt, k = draw(st.sampled_from([("int8", 128), ("int8", 127), ("uint8", 256), ("uint8", 255), ("int16", 300)]))
+        nt = k * draw(st.sampled_from([1, 2]))
+        nd = draw(st.sampled_from([-9999, 0]))
+        px = [[nd if draw(st.integers(0, 9)) == 0 else draw(st.integers(-300, 300)) for _ in range(nt)]]
+        return {"pixels": px, "dtype": draw(st.sampled_from(["int16", "float32"])), "nodata": nd, "dims": ["time", "y", "x"], "nodata_from": "arg",
+                "groups": [t % k for t in range(nt)], "as_array": idt}
+
+    ctx.given("mean_grp_accessor", many_groups(), ctx.n(12, 120), fn=f_ga, shrink=False)
